@@ -60,13 +60,17 @@ POOL = [
     ("k@v", ("lincomb", [S("k0"), S("k1")], V2), "a", True),
     ("p alone", P, "b", False),
     ("sin(p*x)/y", ("bin", "/", ("un", "sin", ("bin", "*", P, X)), Y), "a", True),
+    # the variable list is RE-DECLARED by name (other objects, other bounds): legal, variables are identified by name
+    ("redeclared:p*x+y^2", ("bin", "+", ("bin", "*", P, X), ("bin", "*", Y, Y)), "b", False, True),
+    ("redeclared:y*x", ("bin", "*", Y, X), "a", True, True),
+    ("redeclared:k@v", ("lincomb", [S("k0"), S("k1")], V2), "b", False, True),
 ]
 
 META = dict(
     rule="one case = (target model, prefix of k pool models, observation); the solver quantifies over the point and over the values of the target AND of every prefix model (distinct symbols per model)",
     bounds={
-        "quick": "10 targets x all prefixes of length <= 2 over a pool of 9 (exhaustive: 9 + 81) + length-3 prefixes with a repeated name-colliding model; overflow loops of 1100 / 4200 / 1100 distinct expressions for the three caches",
-        "thorough": "all prefixes of length <= 3 (exhaustive: 819 per target)",
+        "quick": "10 targets x all prefixes of length <= 2 over a pool of 12 (exhaustive: 12 + 144) + length-3 prefixes with a repeated name-colliding model; overflow loops of 1100 / 4200 / 1100 distinct expressions for the three caches",
+        "thorough": "all prefixes of length <= 3 (exhaustive: 1884 per target)",
     },
     outside=["a real fresh process (cache_clear() of every discovered cache is taken as equivalent)", "per-object caches (Expression._degree, Problem caches: C13)", "rounding (S7)"],
     assumptions=["S4/S5 'fixed'", "S1", "S2", "S6", "S7"],
@@ -120,7 +124,7 @@ def valuation(recipe, suffix):
     return val
 
 
-def observe_model(recipe, val, reverse=False):
+def observe_model(recipe, val, reverse=False, redeclare=False):
     """fresh objects every time; returns {obs: value | exception}"""
     import warnings
     from optyx import Problem
@@ -136,6 +140,8 @@ def observe_model(recipe, val, reverse=False):
     from optyx import Variable
     decl = set(names["vars"])
     V = [b.S(("var", n)) if n in decl else Variable(n) for n in order]
+    if redeclare:
+        V = [Variable(v_.name, lb=-1.0, ub=1.0) for v_ in V]
     x = np.empty(len(order), dtype=object)
     for i, n in enumerate(order):
         x[i] = val.get(n, 0.0)
@@ -235,8 +241,8 @@ def run_prefix(t, prefix, planted=False):
     def path():
         clear_all()
         for i in prefix:
-            _, r, suf, rev = POOL[i]
-            observe_model(r, valuation(r, suf), rev)
+            _, r, suf, rev = POOL[i][:4]
+            observe_model(r, valuation(r, suf), rev, redeclare=(len(POOL[i]) > 4 and POOL[i][4]))
         a = observe_model(trecipe, tval)
         clear_all()
         if planted:
@@ -326,12 +332,12 @@ def replay(payload):
     tval = cval(trecipe, 2.0)
     clear_all()
     for i in prefix:
-        _, r, suf, rev = POOL[i]
+        _, r, suf, rev = POOL[i][:4]
         v = cval(r, 5.0 if suf == "a" else 8.0)
         for n in free_names(r)["vars"]:
             v[n] = tval.get(n, v[n])
         with np.errstate(all="ignore"):
-            observe_model(r, v, rev)
+            observe_model(r, v, rev, redeclare=(len(POOL[i]) > 4 and POOL[i][4]))
     with np.errstate(all="ignore"):
         oa = observe_model(trecipe, tval)
         clear_all()
